@@ -256,6 +256,11 @@ var baseTexts = []string{
 	"/* 😀𝄞 */ vars { monetary $amt }\nsend $amt (source = @world destination = @x) // 😀\nset_tx_meta(\"😀\", $amt)", // characters outside the BMP before the edited places
 }
 
+func init() {
+	// a text that starts with a byte order mark (index 7)
+	baseTexts = append(baseTexts, "\ufeffvars { monetary $amt account $dst }\nsend $amt (source = @world destination = $dst)")
+}
+
 // syncKind is what the server advertises in its answer to initialize (1 = full texts only,
 // 2 = incremental): a client only sends ranged changes to a server that asks for them.
 var syncKind = -1
@@ -627,11 +632,11 @@ func runC19(c *fw.Ctx) {
 		l := r.Range(5, 200)
 		ops := make([]op, l)
 		for j := range ops {
-			o := op{uri: r.Intn(4), text: []int{0, 1, 2, 3, 6, 6}[r.Intn(6)], text0: r.Intn(4), pos: r.Intn(len(histPositions))}
+			o := op{uri: r.Intn(4), text: []int{0, 1, 2, 3, 6, 6, 7}[r.Intn(7)], text0: r.Intn(4), pos: r.Intn(len(histPositions))}
 			o.uri = r.Intn(len(uriShapes))
 			o.kind = r.Pick("open", "openplain", "change", "change", "change2", "changews", "changews", "hover", "hover", "definition", "symbols", "change0")
 			if o.kind == "openplain" {
-				o.text = []int{0, 1, 4, 5}[r.Intn(4)]
+				o.text = []int{0, 1, 4, 5, 7}[r.Intn(5)]
 			}
 			if o.kind == "changews" {
 				o.text = r.Intn(len(wsVariants))
